@@ -86,7 +86,7 @@ def run_c17(v):
     binary = lib.build_harness()
     mc = _mc_c17(v)
     trace = lib.outpath(v.prop, "corrupt.ndjson")
-    args = ["corrupt", "--seed", v.seed, "--out", trace, "--scenarios", 2 if quick else 8,
+    args = ["corrupt", "--seed", v.seed, "--out", trace, "--scenarios", 2 if quick else 16,
             "--positions", 120 if quick else 200]
     if not quick:
         args += ["--dense"]
